@@ -184,10 +184,10 @@ def run(ctx):
     if not ctx.stage_build():
         return
     quick = ctx.tier == "quick"
-    ctx.correspond("hist", 1500 if quick else 40000, nontrivial=nontrivial)
-    ctx.correspond("hist", 400 if quick else 8000, name="hist-files", args={"files": "1"}, nontrivial=nontrivial, seed_offset=11)
-    ctx.correspond("hist", 40 if quick else 600, name="hist-badutf8", args={"badutf8": "1"}, nontrivial=nontrivial, seed_offset=23)
-    ctx.correspond("hist", 6 if quick else 60, name="hist-default-size", args={"big": "1"}, nontrivial=nontrivial, seed_offset=37)
+    ctx.correspond("hist", 5000 if quick else 60000, nontrivial=nontrivial)
+    ctx.correspond("hist", 1500 if quick else 15000, name="hist-files", args={"files": "1"}, nontrivial=nontrivial, seed_offset=11)
+    ctx.correspond("hist", 150 if quick else 1500, name="hist-badutf8", args={"badutf8": "1"}, nontrivial=nontrivial, seed_offset=23)
+    ctx.correspond("hist", 12 if quick else 100, name="hist-default-size", args={"big": "1"}, nontrivial=nontrivial, seed_offset=37)
     cli_stream(ctx)
     left = [d for d in os.listdir(tmp)] if os.path.isdir(tmp) else []
     ctx.oblige("harness:temp-dirs-removed", "hygiene", not left, "left behind: %s" % left[:5])
